@@ -508,7 +508,7 @@ impl TypedScenario for C05Raw {
     }
     fn budget(&self, tier: Tier) -> usize {
         match tier {
-            Tier::Quick => sweep().len() + 3000,
+            Tier::Quick => sweep().len() + 10_000,
             Tier::Thorough => sweep().len() + 1_500_000,
         }
     }
